@@ -358,6 +358,7 @@ func witnessCases(prop string) []Case {
 	case "C01":
 		return []Case{
 			mk("symlink-rebuild", Cfg{Level: "fastest", RS: 20, WC: "file"}, []Op{{K: "mkdir", A: "/d", Perm: 0o755}, {K: "create", A: "/d/t", Len: 7, Dist: "text", DSeed: 1}, {K: "symlink", A: "/d/t", B: "/l"}}),
+			mk("zero-time-chtimes", Cfg{Level: "fastest", RS: 20, WC: "file"}, []Op{{K: "create", A: "/f", Len: 3, Dist: "text", DSeed: 1}, {K: "chtimes", A: "/f", N: -62135596800}}),
 			mk("non-utf8-name-embedded-header", Cfg{Enc: "age", Level: "fastest", RS: 20, WC: "file"}, []Op{{K: "mkdir", A: "/caf{E9}-latin1", Perm: 0o755}}), // {E9} stands for the byte 0xE9 (the case list travels as JSON)
 		}
 	case "C02":
